@@ -76,7 +76,7 @@ def compare(ctx, route, orig, back, dialects, case, variant):
         ctx.violation(f"{route}:{variant}:{sig}", {"sql": case["sql"], "dialect": case["dialect"], **detail}, case)
 
 
-def check_tree(ctx, t, dialects, case, variant):
+def check_tree(ctx, t, dialects, case, variant, in_place=False):
     from sqlglot import exp
     from sqlglot.serde import dump, load
 
@@ -117,6 +117,26 @@ def check_tree(ctx, t, dialects, case, variant):
             ctx.violation(f"copy-shares-node:{variant}", {"sql": case["sql"]}, case)
     except Exception as e:
         ctx.violation(f"copy-raises:{variant}:{type(e).__name__}", {"sql": case["sql"], "error": repr(e)[:200]}, case)
+        return
+    # 5 the copy and the tree itself must also agree when the generator works in place (copy=False, what transpile() does);
+    #   last step, because it may modify `t`
+    if in_place:
+        from sqlglot.dialects.dialect import Dialect
+
+        for d in dialects[:2]:
+            try:
+                gen = Dialect.get_or_raise(d)
+                a = gen.generate(t.copy(), copy=False)
+            except Exception:
+                continue
+            try:
+                b = gen.generate(t, copy=False)
+            except Exception as e:
+                b = "raised " + type(e).__name__
+            ctx.count("in_place_generations_compared")
+            if a != b:
+                ctx.violation(f"copy:{variant}:sql-differs-when-generated-in-place", {"sql": case["sql"], "dialect": d or "base", "copy": a[:300], "tree": b[:300]}, case)
+            break
 
 
 def synthetic(ctx):
@@ -151,6 +171,42 @@ def synthetic(ctx):
         ctx.count("evaluations")
         ctx.nt(["synthetic", n.sql()])
         check_tree(ctx, n, ["", "duckdb", "tsql"], {"sql": n.sql(), "dialect": "base", "synthetic": True}, "synthetic")
+
+
+def harvested_trees(ctx):
+    """trees of dialect-specific statements (harvested vocabulary, see gen/harvest.py), raw and type-annotated"""
+    import sqlglot
+    from sqlglot.errors import SqlglotError
+    from sqlglot.optimizer.annotate_types import annotate_types
+    from ..common import dialect_names, guarded
+    from ..gen.harvest import harvested
+
+    stride = 4 if ctx.tier == "quick" else 1
+    k = 0
+    names = [d for d in dialect_names() if d]
+    for di, d in enumerate(names):
+        texts, found = harvested(d)
+        for ti, s in enumerate(texts):
+            k += 1
+            if k % ctx.nshards != ctx.shard or (ti + di) % stride:
+                continue
+            if ctx.expired():
+                return
+            st, t = guarded(lambda: sqlglot.parse_one(s, read=d), len(s) // 3 + 10)
+            if st != "ok" or t is None:
+                continue
+            ctx.count("harvested_trees")
+            ctx.count("evaluations")
+            case = {"sql": s, "dialect": d}
+            others = [d, names[(di + ti) % len(names)]]
+            if ti % 3 == 0:
+                try:
+                    check_tree(ctx, annotate_types(t.copy(), dialect=d), others, case, "harvested-annotated")
+                except SqlglotError:
+                    pass
+                except Exception:
+                    ctx.count("annotate_internal_error")
+            check_tree(ctx, t, others, case, "harvested", in_place=True)
 
 
 def worker(ctx):
@@ -202,9 +258,10 @@ def worker(ctx):
                 ctx.count("evaluations")
                 if any(n.comments or n._meta or getattr(n, "_type", None) is not None for n in vt.walk()):
                     ctx.nt([s, dn, vname])
-                check_tree(ctx, vt, others, case, vname)
+                check_tree(ctx, vt, others, case, vname, in_place=(vname != "raw"))
         if i % 401 == 0:
             ctx.sample({"sql": s, "dialects": [x or "base" for x in ds[:3]]})
+    harvested_trees(ctx)
     if ctx.shard == 0:
         synthetic(ctx)
 
